@@ -169,6 +169,8 @@ fn one_connection(ctx: &mut Ctx) -> ScResult {
     }
     let mut pos = 0usize;
     let mut segs = 0u64;
+    // knob: zero-length pushes in one run of three
+    let empty_pushes = ctx.ch.rare(1, 3);
     while pos < cut {
         let rem = cut - pos;
         let n = match seg_mode {
@@ -188,7 +190,17 @@ fn one_connection(ctx: &mut Ctx) -> ScResult {
         }
         .min(rem);
         let chunk = &stream[pos..pos + n];
+        // a read that returned no bytes (a spurious wake-up): an empty push, before or after the chunk
+        let empty_push = empty_pushes && ctx.ch.rare(1, 4);
+        if empty_push && ctx.ch.coin() {
+            ctx.st.inc("fault.empty_push");
+            g("TcpBuffer::push_data", || tb.push_data(&[]))?;
+        }
         g("TcpBuffer::push_data", || tb.push_data(chunk))?;
+        if empty_push {
+            ctx.st.inc("fault.empty_push");
+            g("TcpBuffer::push_data", || tb.push_data(&[]))?;
+        }
         fm.buf.extend(chunk.iter().copied());
         pos += n;
         segs += 1;
